@@ -1,6 +1,8 @@
 /- Driver for C11: line = "(tree updates)<TAB>implObs"; see harness/props/c11. -/
 import ControlModel.Model.RoleTree
+import ControlModel.Model.RoleTreeConc
 import ControlModel.Spec.C11
+import ControlModel.Spec.C11Conc
 
 namespace Driver.C11
 open RoleTree
@@ -47,10 +49,51 @@ def parseDump (d : SExp) : Option (List (TState × TStatus)) := do
     | .list [.atom s, .atom u] => do pure ((← TState.parse? s), (← TStatus.parse? u))
     | _ => none
 
+/-! ### concurrent mode: input `(conc tree pre threads sched)`, see harness/props/c11/conc.go -/
+
+def parseThread : SExp → Option (Nat × TState)
+  | .list [i, .atom v] => do pure ((← i.nat?), (← TState.parse? v))
+  | _ => none
+
+def traceSx (tr : List (String × List Nat)) : SExp :=
+  .list (tr.map fun (o, ws) => .list (.atom o :: ws.map SExp.ofNat))
+
+def processConc (tree : SExp) (pre thr sched : List SExp) (impl : String) : String :=
+  match parseForest [tree], pre.mapM? parseUpdate, thr.mapM? parseThread, sched.mapM? SExp.nat? with
+  | some f0, some us, some ths, some sc =>
+    let f1 := run f0 us
+    let T := Conc.flatten f1 ths
+    if !T.wf then "REJECT:tree-not-wellformed\t0\t-" else
+    let c0 := Conc.initCfg f1
+    -- the hypotheses of C11_conc_spec, checked for this very input
+    if !(Conc.errUp T c0.st) then "REJECT:initial-tree-not-error-closed\t0\t-" else
+    let (fine, trace) := Conc.replay T c0 sc
+    let fin := Conc.exec T c0 fine
+    let n := T.nodes.length
+    let stati := (dump f1).map (·.2)
+    let modelDump : SExp := .list ((List.range n).map fun k =>
+      .list [.atom (fin.st k).name, .atom (stati.getD k .UNDEFINED).name])
+    let model : SExp :=
+      if Conc.quiescent T fin then .list [.atom "conc", traceSx trace, modelDump]
+      else .list [.atom "conc-not-quiescent", traceSx trace, modelDump]
+    -- Spec.C11conc on what the implementation reported when every UpdateState had returned
+    let spec : Bool :=
+      match SExp.parse impl with
+      | some (.list [.atom "conc", _, d]) =>
+        match parseDump d with
+        | some ds =>
+          let sts := ds.map (·.1)
+          Conc.concOk T c0.st (fun k => sts.getD k .UNKNOWN) && ds.length == n && ds.map (·.2) == stati
+        | none => false
+      | _ => false
+    s!"{model}\t{if spec then 1 else 0}\t-"
+  | _, _, _, _ => "BADINPUT\t0\t-"
+
 def processLine (line : String) : String :=
   match SExp.fields line with
   | [inp, impl] =>
     match SExp.parse inp with
+    | some (.list [.atom "conc", tree, .list pre, .list thr, .list sched]) => processConc tree pre thr sched impl
     | some (.list [tree, .list ups]) =>
       match parseForest [tree], ups.mapM? parseUpdate with
       | some f, some us =>
